@@ -33,6 +33,8 @@ fn spaces(tier: Tier) -> Vec<Space> {
             Space { alpha: "TERN", depth: 3 },
             Space { alpha: "CASE", depth: 2 },
             Space { alpha: "CASE", depth: 3 },
+            Space { alpha: "PAY", depth: 2 },
+            Space { alpha: "PAY", depth: 3 },
             Space { alpha: "QSYM", depth: 3 },
             Space { alpha: "Q", depth: 2 },
             Space { alpha: "MICRO", depth: 3 },
@@ -61,6 +63,8 @@ fn spaces(tier: Tier) -> Vec<Space> {
             Space { alpha: "TERN", depth: 3 },
             Space { alpha: "CASE", depth: 2 },
             Space { alpha: "CASE", depth: 3 },
+            Space { alpha: "PAY", depth: 2 },
+            Space { alpha: "PAY", depth: 3 },
             Space { alpha: "QSYM", depth: 3 },
             Space { alpha: "QSYM", depth: 4 },
             Space { alpha: "Q", depth: 2 },
